@@ -166,6 +166,8 @@ def single_assignments(fn_node: ast.AST) -> Dict[str, ast.expr]:
             value[n.targets[0].id] = n.value
         elif isinstance(n, ast.AnnAssign) and isinstance(n.target, ast.Name) and n.value is not None:
             value[n.target.id] = n.value
+        elif isinstance(n, ast.NamedExpr) and isinstance(n.target, ast.Name):
+            value[n.target.id] = n.value
     args = getattr(fn_node, "args", None)
     params = {x.arg for x in (args.posonlyargs + args.args + args.kwonlyargs)} if args is not None else set()
     return {k: v for k, v in value.items() if count.get(k, 0) == 1 and k not in params}
